@@ -56,20 +56,23 @@ def storage_rules(rep, D, cfg):
             rep.bad("C18.R1", fn, fn.loc, "release" + tag, "release() must destroy the stored object exactly once (%s) and mark the storage empty (%s)" % (sorted(cf.exits), sorted(rv.exits)))
     for fn in inst(MS + "::move_assign"):
         ff = FactFlow(fn)
-        take = [(b, i, ev) for b, i, ev in fn.all_events() if ev.get("k") == "write" and P(ev["lhs"]) == "this->heap_storage" and P(ev["rhs"]) == "other.heap_storage"]
+        if len(fn.params) != 1:
+            raise AnalysisBroken("move_assign: expected one parameter (the source storage)")
+        OTH = fn.params[0]["name"]           # the source storage (the parameter's name is free)
+        take = [(b, i, ev) for b, i, ev in fn.all_events() if ev.get("k") == "write" and P(ev["lhs"]) == "this->heap_storage" and P(ev["rhs"]) == OTH + ".heap_storage"]
         probs = []
         if not take:
             probs.append("does not take over the heap object")
         for b, i, ev in take:
-            if always_followed_by(fn, (b, i), lambda e: e.get("k") == "write" and P(e["lhs"]) == "other.heap_storage" and T(strip(e["rhs"])) == "nullptr"):
+            if always_followed_by(fn, (b, i), lambda e: e.get("k") == "write" and P(e["lhs"]) == OTH + ".heap_storage" and T(strip(e["rhs"])) == "nullptr"):
                 probs.append("the source keeps its pointer to the object (double delete)")
-            if always_followed_by(fn, (b, i), lambda e: e.get("k") == "call" and callee_short(e) == "reset_vtable" and P(e.get("recv")) == "other"):
+            if always_followed_by(fn, (b, i), lambda e: e.get("k") == "call" and callee_short(e) == "reset_vtable" and P(e.get("recv")) == OTH):
                 probs.append("the moved-from storage is not marked empty (it still reports a sender and destroys it again)")
             if always_followed_by(fn, (b, i), lambda e: e.get("k") == "write" and P(e["lhs"]) == "this->object"):
                 probs.append("'object' is not updated")
         mv = [(b, i, ev) for b, i, ev in fn.all_events() if ev.get("k") == "call" and callee_short(ev) == "move_into"]
         for b, i, ev in mv:
-            if always_followed_by(fn, (b, i), lambda e: e.get("k") == "call" and callee_short(e) == "reset_vtable" and P(e.get("recv")) == "other"):
+            if always_followed_by(fn, (b, i), lambda e: e.get("k") == "call" and callee_short(e) == "reset_vtable" and P(e.get("recv")) == OTH):
                 probs.append("the moved-from embedded storage is not marked empty")
             if always_followed_by(fn, (b, i), lambda e: e.get("k") == "call" and (callee_short(e).startswith("~") or callee_short(e) == "release")):
                 probs.append("the moved-from object in the source's embedded storage is never destroyed (move_into constructs a new object; the source only resets its vtable)")
